@@ -7,9 +7,16 @@ package checks
 
 import (
 	"fmt"
+	"os"
+	"reflect"
+	"strings"
 	"testing"
 
+	"github.com/grafana/codejen"
 	"github.com/grafana/cog/internal/ast"
+	"github.com/grafana/cog/internal/ast/compiler"
+	"github.com/grafana/cog/internal/languages"
+	"github.com/grafana/cog/verifharness/cogx"
 	"github.com/grafana/cog/verifharness/irgen"
 	"github.com/grafana/cog/verifharness/vlib"
 	"github.com/grafana/cog/verifharness/walk"
@@ -23,9 +30,15 @@ type c16Case struct {
 // resolveChain follows references across all schemas with a hop bound (an
 // independent re-implementation: no cog resolver involved).
 func resolveChain(schemas ast.Schemas, t ast.Type) (ast.Type, bool) {
+	r, _, ok := resolveChainHops(schemas, t)
+	return r, ok
+}
+
+// resolveChainHops also tells how many references were followed.
+func resolveChainHops(schemas ast.Schemas, t ast.Type) (ast.Type, int, bool) {
 	for hops := 0; hops < 64; hops++ {
 		if t.Kind != ast.KindRef || t.Ref == nil {
-			return t, true
+			return t, hops, true
 		}
 		found := false
 		for _, s := range schemas {
@@ -36,10 +49,10 @@ func resolveChain(schemas ast.Schemas, t ast.Type) (ast.Type, bool) {
 			}
 		}
 		if !found {
-			return t, false
+			return t, hops, false
 		}
 	}
-	return t, false
+	return t, 64, false
 }
 
 func typeClass(t ast.Type) string {
@@ -50,15 +63,112 @@ func typeClass(t ast.Type) string {
 	return c
 }
 
+// c16DummyLanguage is the language `cog inspect` uses when none is asked for:
+// no compiler pass, no jenny.
+type c16DummyLanguage struct{}
+
+func (c16DummyLanguage) Name() string { return "dummy" }
+func (c16DummyLanguage) Jennies(_ languages.Config) *codejen.JennyList[languages.Context] {
+	return nil
+}
+func (c16DummyLanguage) CompilerPasses() compiler.Passes { return nil }
+
+// c16Same: equal as IR values. reflect.DeepEqual is the fast path (it implies
+// canonical equality); values that only differ by nil / empty collections are
+// settled by the canonical text.
+func c16Same(a, b any) bool {
+	return reflect.DeepEqual(a, b) || walk.Canon(a) == walk.Canon(b)
+}
+
+// c16FieldNeedsOption: the field is neither fixed by the schema nor possibly
+// covered by a constructor (the model's own classification, no cog resolver).
+func c16FieldNeedsOption(schemas ast.Schemas, f ast.StructField) bool {
+	if f.Type.Kind == ast.KindScalar && f.Type.Scalar != nil && f.Type.Scalar.Value != nil {
+		return false
+	}
+	if f.Type.Kind == ast.KindConstantRef {
+		return false
+	}
+	if f.Type.Kind == ast.KindRef {
+		if r, ok := resolveChain(schemas, f.Type); ok && r.Kind == ast.KindScalar && r.Scalar != nil && r.Scalar.Value != nil {
+			return false
+		}
+	}
+	return true
+}
+
+// c16Optionless: no field of the struct needs an option.
+func c16Optionless(schemas ast.Schemas, st ast.Type) bool {
+	for _, f := range st.Struct.Fields {
+		if c16FieldNeedsOption(schemas, f) {
+			return false
+		}
+	}
+	return true
+}
+
+// c16Check judges two stages against the same model:
+//   - "derived": BuilderGenerator.FromAST on the schemas;
+//   - "shown":   what `cog inspect --ir builders` prints: the schemas and the
+//     builders of Pipeline.ContextForLanguage for the dummy language with
+//     builders on and no veneer configured (passes, derivation, the veneer
+//     rewriter, nil checks), judged against the schemas of that same context.
 func c16Check(c c16Case) []vlib.Violation {
-	schemas := c.IR.Build()
+	return c16CheckBuilt(c, c.IR.Build())
+}
+
+// c16CheckBuilt: schemas is c.IR.Build() (neither stage writes to it:
+// ContextForLanguage works on a deep copy).
+func c16CheckBuilt(c c16Case, schemas ast.Schemas) []vlib.Violation {
+	closed := c16RefsClosed(c.IR)
 	var builders ast.Builders
 	sig, msg, panicked := vlib.Guard(func() { builders = (&ast.BuilderGenerator{}).FromAST(schemas) })
 	if panicked {
-		return []vlib.Violation{vlib.V("skip:panic:"+sig, "FromAST panicked: %s", msg)}
+		if !closed {
+			// a reference that does not resolve is outside C16 (the panic is C04's)
+			return []vlib.Violation{vlib.V("skip:panic:"+sig, "FromAST panicked: %s", msg)}
+		}
+		return []vlib.Violation{vlib.V("no-builders:panic:"+sig, "every reference resolves, yet BuilderGenerator.FromAST panicked (no builder is derived at all): %s", msg)}
 	}
+	vs := c16Judge(schemas, builders, "")
+
+	var ctx languages.Context
+	var err error
+	sig, msg, panicked = vlib.Guard(func() { ctx, err = cogx.ContextFor(c16DummyLanguage{}, schemas, true) })
+	if panicked {
+		if !closed {
+			return append(vs, vlib.V("skip:panic:"+sig, "ContextForLanguage panicked: %s", msg))
+		}
+		return append(vs, vlib.V("shown:no-builders:panic:"+sig, "every reference resolves, yet Pipeline.ContextForLanguage (what `cog inspect --ir builders` runs) panicked: %s", msg))
+	}
+	if err != nil {
+		return append(vs, vlib.V("shown:no-builders:error", "Pipeline.ContextForLanguage (what `cog inspect --ir builders` runs) failed: %v", err))
+	}
+	seen := map[string]bool{}
+	for _, v := range vs {
+		seen[v.Msg] = true
+	}
+	for _, v := range c16Judge(ctx.Schemas, ctx.Builders, "shown:") {
+		if seen[strings.TrimPrefix(v.Msg, "shown: ")] {
+			continue // already reported for the derived stage
+		}
+		vs = append(vs, v)
+	}
+	return vs
+}
+
+// c16Judge compares builders with the derivation the property describes.
+// stage is "" (derived) or "shown:".
+func c16Judge(schemas ast.Schemas, builders ast.Builders, stage string) []vlib.Violation {
 	var vs []vlib.Violation
-	bad := func(sig string, format string, args ...any) { vs = append(vs, vlib.V(sig, format, args...)) }
+	bad := func(sig string, format string, args ...any) {
+		v := vlib.V(stage+sig, format, args...)
+		if stage != "" {
+			v.Msg = strings.TrimSuffix(stage, ":") + ": " + v.Msg
+		}
+		vs = append(vs, v)
+	}
+	strictOptionless := os.Getenv("VERIF_C16_STRICT_OPTIONLESS") != ""
 
 	// expected builder set
 	byObject := map[string][]ast.Builder{}
@@ -80,6 +190,11 @@ func c16Check(c c16Case) []vlib.Violation {
 			if ok && resolved.Kind == ast.KindStruct {
 				expected[key] = true
 				if len(byObject[key]) == 0 {
+					if stage != "" && !strictOptionless && c16Optionless(schemas, resolved) {
+						// the veneer rewriter drops builders that have no option
+						// ("dismissed"), with or without rules: see the assumptions
+						return
+					}
 					bad("missing-builder:"+via, "object %s is a struct (%s) but has no builder", key, via)
 				} else if len(byObject[key]) > 1 {
 					bad("duplicate-builder:"+via, "object %s has %d builders", key, len(byObject[key]))
@@ -117,7 +232,7 @@ func c16Check(c c16Case) []vlib.Violation {
 		if b.Package != b.For.SelfRef.ReferredPkg || b.Name != obj.Name {
 			bad("builder-identity", "builder for %s is named %s.%s", key, b.Package, b.Name)
 		}
-		if walk.Canon(b.For) != walk.Canon(obj) {
+		if !c16Same(b.For, obj) {
 			bad("builder-for", "builder %s: For differs from the object it is built for", key)
 		}
 		resolved, _ := resolveChain(schemas, obj.Type)
@@ -161,7 +276,7 @@ func c16Check(c c16Case) []vlib.Violation {
 				}
 				if len(ctor) != 1 {
 					bad("constructor-constant-count:"+cls+":"+fc, "builder %s: field %q (fixed to %v) has %d constructor assignments, want 1", key, f.Name, want.Scalar.Value, len(ctor))
-				} else if walk.Canon(ctor[0].Value.Constant) != walk.Canon(want.Scalar.Value) || ctor[0].Value.Argument != nil || len(ctor[0].Path) != 1 {
+				} else if !c16Same(ctor[0].Value.Constant, want.Scalar.Value) || ctor[0].Value.Argument != nil || len(ctor[0].Path) != 1 {
 					bad("constructor-constant-value:"+cls+":"+fc, "builder %s: field %q: constructor assigns %s, the schema fixes %s", key, f.Name, walk.Canon(ctor[0].Value), walk.Canon(want.Scalar.Value))
 				}
 			case refConst:
@@ -187,7 +302,7 @@ func c16Check(c c16Case) []vlib.Violation {
 				if o.Name != f.Name {
 					bad("option-name:"+fc, "builder %s: option for field %q is named %q", key, f.Name, o.Name)
 				}
-				if len(o.Args) != 1 || o.Args[0].Name != f.Name || walk.Canon(o.Args[0].Type) != walk.Canon(f.Type) {
+				if len(o.Args) != 1 || o.Args[0].Name != f.Name || !c16Same(o.Args[0].Type, f.Type) {
 					bad("option-argument:"+fc, "builder %s: option %q must take one argument %q of the field's type %s, has %s", key, o.Name, f.Name, walk.Canon(f.Type), walk.Canon(o.Args))
 					continue
 				}
@@ -196,10 +311,10 @@ func c16Check(c c16Case) []vlib.Violation {
 					continue
 				}
 				a := o.Assignments[0]
-				if len(a.Path) != 1 || a.Path[0].Identifier != f.Name || walk.Canon(a.Path[0].Type) != walk.Canon(f.Type) || a.Path[0].Index != nil {
+				if len(a.Path) != 1 || a.Path[0].Identifier != f.Name || !c16Same(a.Path[0].Type, f.Type) || a.Path[0].Index != nil {
 					bad("assignment-path:"+fc, "builder %s: option %q assigns path %s, want [%s] of type %s", key, o.Name, walk.Canon(a.Path), f.Name, walk.Canon(f.Type))
 				}
-				if a.Value.Argument == nil || a.Value.Constant != nil || a.Value.Envelope != nil || walk.Canon(*a.Value.Argument) != walk.Canon(o.Args[0]) {
+				if a.Value.Argument == nil || a.Value.Constant != nil || a.Value.Envelope != nil || !c16Same(*a.Value.Argument, o.Args[0]) {
 					bad("assignment-value:"+fc, "builder %s: option %q does not assign its argument: %s", key, o.Name, walk.Canon(a.Value))
 				}
 				if a.Method != ast.DirectAssignment {
@@ -214,7 +329,7 @@ func c16Check(c c16Case) []vlib.Violation {
 				var gotC []string
 				for _, ac := range a.Constraints {
 					gotC = append(gotC, string(ac.Op)+" "+walk.Canon(ac.Parameter))
-					if walk.Canon(ac.Argument) != walk.Canon(o.Args[0]) {
+					if !c16Same(ac.Argument, o.Args[0]) {
 						bad("constraint-argument:"+fc, "builder %s: option %q: constraint %s is on argument %s", key, o.Name, ac.Op, walk.Canon(ac.Argument))
 					}
 				}
@@ -222,13 +337,13 @@ func c16Check(c c16Case) []vlib.Violation {
 					bad("assignment-constraints:"+fc, "builder %s: option %q carries constraints %v, the field declares %v", key, o.Name, gotC, wantC)
 				}
 				if f.Type.Default != nil {
-					if o.Default == nil || len(o.Default.ArgsValues) != 1 || walk.Canon(o.Default.ArgsValues[0]) != walk.Canon(f.Type.Default) {
+					if o.Default == nil || len(o.Default.ArgsValues) != 1 || !c16Same(o.Default.ArgsValues[0], f.Type.Default) {
 						bad("option-default:"+fc, "builder %s: option %q: default %s, the field declares %s", key, o.Name, walk.Canon(o.Default), walk.Canon(f.Type.Default))
 					}
 				} else if o.Default != nil {
 					bad("option-default-invented:"+fc, "builder %s: option %q has a default %s the field does not declare", key, o.Name, walk.Canon(o.Default))
 				}
-				if walk.Canon(o.Comments) != walk.Canon(f.Comments) {
+				if !c16Same(o.Comments, f.Comments) {
 					bad("option-comments", "builder %s: option %q comments %s, field comments %s", key, o.Name, walk.Canon(o.Comments), walk.Canon(f.Comments))
 				}
 			}
@@ -255,74 +370,137 @@ func c16Config() irgen.Config {
 	return cfg
 }
 
+// c16Labels describes the case for the coverage accounting (from the built IR
+// alone, whatever way it was generated).
+func c16Labels(schemas ast.Schemas) (labels []string, nontrivial bool) {
+	chainBucket := func(prefix string, hops int) {
+		switch {
+		case hops >= 10:
+			labels = append(labels, prefix+"_10plus_hops")
+		case hops >= 7:
+			labels = append(labels, prefix+"_7to9_hops")
+		case hops >= 4:
+			labels = append(labels, prefix+"_4to6_hops")
+		case hops >= 2:
+			labels = append(labels, prefix+"_2to3_hops")
+		}
+	}
+	for _, s := range schemas {
+		s.Objects.Iterate(func(_ string, o ast.Object) {
+			resolved, hops, ok := resolveChainHops(schemas, o.Type)
+			if !ok || resolved.Kind != ast.KindStruct {
+				return
+			}
+			if o.Type.Kind == ast.KindRef {
+				nontrivial = true
+				labels = append(labels, "alias_of_struct")
+				chainBucket("alias_of_struct", hops)
+				if o.Type.Ref.ReferredPkg != s.Package {
+					labels = append(labels, "cross_package_alias")
+					if o.Type.Ref.ReferredType == o.Name {
+						labels = append(labels, "same_named_cross_package_alias")
+					}
+				}
+			}
+			if c16Optionless(schemas, resolved) {
+				labels = append(labels, "struct_without_option_bearing_field")
+			}
+			fields := resolved.Struct.Fields
+			for i, f := range fields {
+				switch {
+				case f.Type.Kind == ast.KindScalar && f.Type.Scalar.Value != nil:
+					nontrivial = true
+					labels = append(labels, "literal_constant_field")
+					if !f.Required || f.Type.Nullable {
+						labels = append(labels, "optional_literal_constant_field")
+					}
+				case f.Type.Kind == ast.KindConstantRef:
+					nontrivial = true
+					labels = append(labels, "constant_ref_field")
+				case f.Type.Kind == ast.KindRef:
+					r, fhops, ok := resolveChainHops(schemas, f.Type)
+					if ok && r.Kind == ast.KindScalar && r.Scalar.Value != nil {
+						nontrivial = true
+						labels = append(labels, "ref_to_constant_field")
+						chainBucket("ref_to_constant_field", fhops)
+						if f.Required && !f.Type.Nullable {
+							chainBucket("required_ref_to_constant_field", fhops)
+						}
+						if f.Type.Ref.ReferredPkg != s.Package {
+							labels = append(labels, "cross_package_ref_to_constant_field")
+						}
+					} else if ok {
+						chainBucket("ref_field", fhops)
+					}
+				case f.Type.Kind == ast.KindScalar && len(f.Type.Scalar.Constraints) > 0:
+					labels = append(labels, "constrained_field")
+					if f.Type.Nullable {
+						labels = append(labels, "nullable_constrained_field")
+					}
+				}
+				if f.Type.Default != nil {
+					labels = append(labels, "field_with_default")
+				}
+				for _, g := range fields[i+1:] {
+					cls := ""
+					switch {
+					case strings.EqualFold(f.Name, g.Name):
+						cls = "fields_differing_by_case"
+					case normName(f.Name) == normName(g.Name):
+						cls = "fields_differing_by_case_and_separators"
+					case strings.HasPrefix(strings.ToLower(f.Name), strings.ToLower(g.Name)) || strings.HasPrefix(strings.ToLower(g.Name), strings.ToLower(f.Name)):
+						cls = "field_name_prefix_of_sibling"
+					}
+					if cls == "" {
+						continue
+					}
+					labels = append(labels, cls)
+					if cls != "field_name_prefix_of_sibling" {
+						nontrivial = true
+						if c16FieldNeedsOption(schemas, f) && c16FieldNeedsOption(schemas, g) {
+							labels = append(labels, cls+"_both_free")
+						} else {
+							labels = append(labels, cls+"_one_fixed")
+						}
+					}
+				}
+			}
+		})
+	}
+	return dedupe(labels), nontrivial
+}
+
+var c16Separators = strings.NewReplacer("_", "", "-", "")
+
+func normName(s string) string {
+	return strings.ToLower(c16Separators.Replace(s))
+}
+
 func TestC16(t *testing.T) {
 	run := vlib.Begin(t, "C16")
 	defer run.Finish(t)
 	run.Describe(
-		"IRs of 1-3 packages: structs, aliases (chains, cross-package, same-named) of structs and of non-structs, literal constant fields (required/optional/nullable), required and optional references to constants in the same and in other packages, constant references, fields of every kind with defaults and constraints. Oracle: the derivation written from the property's wording, compared with BuilderGenerator.FromAST: builders <=> objects resolving to a struct; every field covered exactly once: by one option (one argument with the field's name, type and default; one direct assignment to the field carrying the field's constraints) or, for a value the schema fixes, by a constructor constant / the type's own constructor, never by an option. Non-trivial: >= 1 alias of a struct or >= 1 schema-fixed field; distinct by case hash.",
-		"every reference points into a loaded package and resolves (references into packages that are not loaded are outside C16)",
+		"IRs of 1-3 packages drawn by the IR generator (structs, aliases (chains, cross-package, same-named) of structs and of non-structs, literal constant fields (required/optional/nullable), required and optional references to constants in the same and in other packages, constant references, fields of every kind with defaults and constraints), 5 cases in 7 widened by (2 in 7 each, 1 in 7 both): (chains) 1-2 acyclic reference chains of 1-16 hops, every hop an alias object placed in any loaded package at any position, optionally re-using the referred object's name in another package, ending in a struct / an alias of one / a constant of any scalar kind (zero values included) / any other object, with 0-2 required / optional / nullable fields of existing structs typed by the head or an inner hop of the chain; (look-alike fields) 1-2 structs get 1-3 sibling fields whose names equal an existing field's name under a lossy comparison (first letter / all letters / one letter case-flipped, camel<->snake, separators dropped, leading / trailing underscore, plural, suffix, prefix of the name), of a copied or fresh type (free, constrained, with default, nullable, reference, literal constant), before or after the field they resemble. Oracle: the derivation written from the property's wording (own reference resolver, no cog resolver) compared with TWO stages: BuilderGenerator.FromAST, and the builders + schemas of Pipeline.ContextForLanguage for the language-less `dummy` language with builders on and no veneer (= what `cog inspect --ir builders` prints: passes, derivation, veneer rewriter, nil checks). In both: builders <=> objects resolving to a struct (exactly one each, named after and carrying the object); every field covered exactly once: by one option (same name; one argument with the field's name, type and default; one direct assignment to the field carrying the field's constraints, bound to that argument) or, for a value the schema fixes, by one constructor constant of that value / the type's own constructor, never by an option; no option or constructor assignment for anything that is not a field. A panic or error of either stage on an IR whose references all resolve is a violation (no builder is shown at all). Non-trivial: >= 1 alias of a struct, >= 1 schema-fixed field or >= 1 pair of look-alike fields; distinct by case hash.",
+		"every reference points into a loaded package and resolves, reference chains are acyclic (references into packages that are not loaded are outside C16)",
 		"an optional or nullable reference to a constant may be covered either way (the schema does not fix an absent value)",
 		"option order is not compared",
+		"shown stage: a struct none of whose fields needs an option (no field, or only schema-fixed fields) may have no builder: the veneer rewriter dismisses builders without options even when no rule is configured (label struct_without_option_bearing_field counts the cases; VERIF_C16_STRICT_OPTIONLESS=1 turns the allowance off); the derived stage demands that builder",
 	)
 	if vlib.RunReplay(t, run, c16Check) {
 		return
 	}
 	cfg := c16Config()
 	rapid.Check(t, func(rt *rapid.T) {
-		c := c16Case{IR: irgen.Draw(rt, cfg)}
+		c := c16Case{IR: c16Shape(rt, irgen.Draw(rt, cfg))}
 		schemas := c.IR.Build()
-		labels := []string{}
-		nontrivial := false
-		for _, s := range schemas {
-			s.Objects.Iterate(func(_ string, o ast.Object) {
-				resolved, ok := resolveChain(schemas, o.Type)
-				if o.Type.Kind == ast.KindRef && ok && resolved.Kind == ast.KindStruct {
-					nontrivial = true
-					labels = append(labels, "alias_of_struct")
-					if o.Type.Ref.ReferredPkg != s.Package {
-						labels = append(labels, "cross_package_alias")
-						if o.Type.Ref.ReferredType == o.Name {
-							labels = append(labels, "same_named_cross_package_alias")
-						}
-					}
-				}
-				if ok && resolved.Kind == ast.KindStruct {
-					for _, f := range resolved.Struct.Fields {
-						switch {
-						case f.Type.Kind == ast.KindScalar && f.Type.Scalar.Value != nil:
-							nontrivial = true
-							labels = append(labels, "literal_constant_field")
-							if !f.Required || f.Type.Nullable {
-								labels = append(labels, "optional_literal_constant_field")
-							}
-						case f.Type.Kind == ast.KindConstantRef:
-							nontrivial = true
-							labels = append(labels, "constant_ref_field")
-						case f.Type.Kind == ast.KindRef:
-							if r, ok := resolveChain(schemas, f.Type); ok && r.Kind == ast.KindScalar && r.Scalar.Value != nil {
-								nontrivial = true
-								labels = append(labels, "ref_to_constant_field")
-							}
-						case f.Type.Kind == ast.KindScalar && len(f.Type.Scalar.Constraints) > 0:
-							labels = append(labels, "constrained_field")
-							if f.Type.Nullable {
-								labels = append(labels, "nullable_constrained_field")
-							}
-						}
-						if f.Type.Default != nil {
-							labels = append(labels, "field_with_default")
-						}
-					}
-				}
-			})
-		}
+		labels, nontrivial := c16Labels(schemas)
 		key := uint64(0)
 		if nontrivial {
 			key = vlib.Hash(c)
 		}
 		run.Pending(c)
-		vs := skipPanics(run, c16Check(c))
-		run.Eval(key, dedupe(labels)...)
+		vs := skipPanics(run, c16CheckBuilt(c, schemas))
+		run.Eval(key, labels...)
 		if nontrivial && len(c.IR.ObjectNames()) <= 4 {
 			run.Sample(c)
 		}
